@@ -187,8 +187,14 @@ class World:
                 v.parent = self.obj(op[2])
             elif k == "C":
                 _ARM["kind"], _ARM["point"] = "children", op[3]
-                # a fresh list per call (since D7 the setter copies its argument anyway)
-                v.children = None if op[2] is None else [self.obj(a) for a in op[2]]
+                held = None if op[2] is None else [self.obj(a) for a in op[2]]
+                try:
+                    v.children = held
+                finally:
+                    # the caller goes on using ITS list object: whatever it does to it must not reach the slots
+                    if held is not None:
+                        held.append(None)
+                        held.clear()
             elif k == "T":
                 _ARM["kind"], _ARM["point"] = "children", op[3]
                 v.children = tuple(self.obj(a) for a in op[2])
